@@ -11,6 +11,7 @@ package main
 //	c11: the stdout of `sx arp --json` is the stdin of `sx tcp`: destination MAC of every probe.
 
 import (
+	"encoding/json"
 	"fmt"
 	"math/rand"
 	"sort"
@@ -515,6 +516,28 @@ func scenC11(run *vlab.Run, sx, tmp string) {
 			continue
 		}
 		arpOut := strings.Join(resA.Stdout, "")
+		// what the ARP scan actually PRINTED is the cache (last line wins); whether it printed every reply is C03's business
+		printedMAC := map[uint32][6]byte{}
+		for _, l := range resA.Stdout {
+			var m struct {
+				IP  string `json:"ip"`
+				MAC string `json:"mac"`
+			}
+			if json.Unmarshal([]byte(l), &m) != nil {
+				continue
+			}
+			a, ok := oracle.RefIPv4(m.IP)
+			var mac [6]byte
+			if n, _ := fmt.Sscanf(strings.ReplaceAll(m.MAC, ":", " "), "%x %x %x %x %x %x", &mac[0], &mac[1], &mac[2], &mac[3], &mac[4], &mac[5]); ok && n == 6 {
+				printedMAC[a] = mac
+			}
+		}
+		for a, m := range printedMAC {
+			if want, up := macOf[a]; !up || want != m {
+				run.Violation("arp-line-wrong", fmt.Sprintf("the ARP scan printed %s for %s; the host answered with %v (up=%v)", oracle.MACString(m[:]), ipS(a), want, up), argsA)
+			}
+		}
+		macOf = printedMAC
 		// ---- run B: an IP-level scan fed with A's output
 		kind := []string{"tcp", "icmp", "udp"}[i%3]
 		withGw := i%4 != 3
